@@ -22,6 +22,7 @@ import (
 
 	"github.com/postalsys/muti-metroo/internal/agent"
 	"github.com/postalsys/muti-metroo/internal/config"
+	"github.com/postalsys/muti-metroo/internal/exit"
 	"github.com/postalsys/muti-metroo/internal/identity"
 	"github.com/postalsys/muti-metroo/internal/protocol"
 	"github.com/postalsys/muti-metroo/verifharness/policy"
@@ -201,10 +202,15 @@ func (e *env) runScenario(sc Scenario) {
 	}
 	defer cleanup()
 	w := policy.NewWriter()
+	// the recording writer is installed once per handler instance, before
+	// any open request reaches it (SetWriter is not synchronised: the agent
+	// calls it once during initialisation)
+	var attached *exit.Handler
 	attach := func() {
-		if h := a.VerifExitHandler(); h != nil {
+		if h := a.VerifExitHandler(); h != nil && h != attached {
 			h.SetWriter(w)
 			h.Start()
+			attached = h
 		}
 	}
 	attach()
